@@ -305,6 +305,15 @@ func runSelfTest(pd *PropDoc, verif string, pkgs map[string]bool) []selfTestResu
 			if len(fl) > 0 {
 				st = "ok (now caught)"
 			}
+		} else if v.Expect == "beyond-reach" {
+			// documented limit in the other direction: a behaviour-preserving rewrite that re-expresses the rule's subject in a form
+			// the analysis cannot relate to the specification (construction-time strategy objects, unreachable guards that need value
+			// facts, a different algorithm). The check alarms; DESIGN §8 lists these. A change in the machinery that makes one silent
+			// shows up as "ok (now silent)".
+			st = "alarms on an equivalent rewrite (documented limit)"
+			if len(fl) == 0 {
+				st = "ok (now silent)"
+			}
 		} else if v.Expect == "silent" {
 			if len(fl) > 0 {
 				st = "FALSE-ALARM"
